@@ -14,9 +14,9 @@ struct C18 : drv::Harness
 		Plan p; drv::draw_sched_knobs(p, rng, true);
 		World::draw_net_knobs(p, rng);
 		p.knobs["initiator"] = rng.below(2);
-		p.knobs["pm"] = rng.chance(0.8) ? pm_thread : pm_coro;
+		{ int x = (int)rng.below(20); p.knobs["pm"] = x < 12 ? pm_thread : x < 15 ? pm_coro : pm_pipeline; }
 		p.knobs["pers"] = rng.chance(0.15) ? 0 : rng.chance(0.5) ? 2 : 1;
-		p.knobs["hb"] = rng.pick(std::vector<int64_t>{ 1, 1, 2, 30 });
+		p.knobs["hb"] = p.knobs["pm"] == pm_pipeline ? 30 : rng.pick(std::vector<int64_t>{ 1, 1, 2, 30 });   // a pipelined session must not time out (it cannot be stopped)
 		int n = (int)rng.range(1, thorough ? 24 : 12);
 		for (int i = 0; i < n; ++i)
 		{
